@@ -9,10 +9,10 @@ Local Open Scope nat_scope.
 
 (* ------------------------------------------------------------------ induction over sources *)
 Fixpoint src_ind' (P : src -> Prop)
-  (Hp : forall n p, P (SPeer n p)) (Hd : forall h p, P (SDelay h p)) (Hn : P SNull)
+  (Hp : forall n p k, P (SPeer n p k)) (Hd : forall h p, P (SDelay h p)) (Hn : P SNull)
   (Hs : forall cs, Forall P cs -> P (SStruct cs)) (s : src) : P s :=
   match s with
-  | SPeer n p => Hp n p
+  | SPeer n p k => Hp n p k
   | SDelay h p => Hd h p
   | SNull => Hn
   | SStruct cs =>
@@ -45,10 +45,10 @@ Qed.
 
 Lemma src_eqb_eq a : forall b, src_eqb a b = true <-> a = b.
 Proof.
-  induction a as [n p|h p| |cs IH] using src_ind'; intros b.
+  induction a as [n p k|h p| |cs IH] using src_ind'; intros b.
   - destruct b; simpl; try (split; congruence).
-    rewrite andb_true_iff, Nat.eqb_eq, (list_eqb_spec Nat.eqb Nat.eqb_eq).
-    split; [intros [-> ->]; reflexivity | intros E; injection E; auto].
+    rewrite !andb_true_iff, !Nat.eqb_eq, (list_eqb_spec Nat.eqb Nat.eqb_eq).
+    split; [intros [[-> ->] ->]; reflexivity | intros E; injection E; auto].
   - destruct b; simpl; try (split; congruence).
     rewrite andb_true_iff, Nat.eqb_eq, (list_eqb_spec Nat.eqb Nat.eqb_eq).
     split; [intros [-> ->]; reflexivity | intros E; injection E; auto].
@@ -161,7 +161,7 @@ Qed.
 Lemma resolve_mono e p e' p' : env_le e e' -> phs_le p p' ->
   forall s r, resolve e p s = Some r -> resolve e' p' s = Some r.
 Proof.
-  intros He Hp s. induction s as [n q|h q| |cs IH] using src_ind'; intros r H.
+  intros He Hp s. induction s as [n q k|h q| |cs IH] using src_ind'; intros r H.
   - simpl in *. destruct (alookup n e) as [i|] eqn:E; [|discriminate]. rewrite (He n i E). exact H.
   - simpl in *. destruct (memb h p) eqn:E; [|discriminate]. rewrite (Hp h E). exact H.
   - exact H.
@@ -479,7 +479,7 @@ Lemma unf_src_resolve (G P : nat -> tree) gb pb e p :
              end) ->
   forall s r, resolve e p s = Some r -> unf_src G gb r = unf_src P pb s.
 Proof.
-  intros Hn Hb s. induction s as [n q|h q| |cs IH] using src_ind'; intros r H.
+  intros Hn Hb s. induction s as [n q k|h q| |cs IH] using src_ind'; intros r H.
   - simpl in H. destruct (alookup n e) as [i|] eqn:E; [|discriminate]. injection H as <-. simpl.
     rewrite (Hn n i E). reflexivity.
   - simpl in H. destruct (memb h p); [|discriminate]. injection H as <-. simpl.
@@ -656,7 +656,7 @@ Qed.
    hooks/fix_passive_marker_in_key.patch.  Under it the two statements below fail. *)
 Definition w_src (s : Z) : ndef := {| nd_def := 0; nd_sch := [1%Z]; nd_scal := Some [s]; nd_uniq := false; nd_push := false |}.
 Definition w_add : ndef := {| nd_def := 3; nd_sch := [1%Z]; nd_scal := None; nd_uniq := false; nd_push := false |}.
-Definition w_in (l : nat) (pa : bool) : input := {| in_src := SPeer l []; in_tpath := []; in_rank := true; in_passive := pa |}.
+Definition w_in (l : nat) (pa : bool) : input := {| in_src := SPeer l [] 0; in_tpath := []; in_rank := true; in_passive := pa |}.
 Definition w_prog : list stmt :=
   [StNode (w_src 7) []; StNode (w_src 8) []; StNode w_add [w_in 0 true; w_in 1 false]; StNode w_add [w_in 0 false; w_in 1 false]].
 
